@@ -23,6 +23,7 @@ import (
 	"github.com/ErdemOzgen/blackdagger/internal/persistence/jsondb"
 	"github.com/ErdemOzgen/blackdagger/internal/scheduler"
 	"github.com/ErdemOzgen/blackdagger/verifh/core"
+	"github.com/ErdemOzgen/blackdagger/verifh/pgrp"
 	"github.com/ErdemOzgen/blackdagger/verifh/gate"
 )
 
@@ -312,6 +313,8 @@ func c08OrphanBody(c *core.Ctx) {
 					c.Inconclusive("c08 orphan: " + err.Error())
 					return
 				}
+				grp := pgrp.Open(cmd.Process.Pid)
+				defer grp.Close()
 				waited := make(chan struct{})
 				reap := make(chan struct{})
 				go func() { <-reap; _ = cmd.Wait(); close(waited) }()
@@ -330,7 +333,7 @@ func c08OrphanBody(c *core.Ctx) {
 					}
 				}
 				if !began {
-					_ = syscall.Kill(-cmd.Process.Pid, syscall.SIGKILL)
+					grp.Kill()
 					if unreaped {
 						close(reap)
 					}
